@@ -10,6 +10,10 @@ def run():
     r = vlib.model_check("MpiPollImpl", "MpiPollImpl_dev.cfg", expect_ok=False, timeout=600)
     chk.add_model("MpiPollImpl/variant drop_base (must violate)", r, note="violated: %s" % r["violated"])
     chk.add_model("ActivityImpl (wait() vs. in-flight work counter)", vlib.model_check("ActivityImplMC", "ActivityImpl.cfg", timeout=600))
+    chk.add_model("MpiWaitImpl (ready queue taken over by any worker; invoke, then decrement; wait() reads the count)",
+                  vlib.model_check("MpiWaitImpl", "MpiWaitImpl.cfg", timeout=600))
+    rw = vlib.model_check("MpiWaitImpl", "MpiWaitImpl_dev.cfg", expect_ok=False, timeout=600)
+    chk.add_model("MpiWaitImpl/variant dec_before_invoke (must violate)", rw, note="violated: %s" % rw["violated"])
     (binary,) = vlib.build_harness(["mpi_harness"])
     nruns = 48 if chk.thorough() else 16
     nhist = 40 if chk.thorough() else 20
